@@ -17,6 +17,7 @@ import (
 	"path/filepath"
 	"sort"
 	"strings"
+	"sync"
 )
 
 // ---------------------------------------------------------------- PRNG
@@ -72,6 +73,7 @@ type suiteOut struct {
 	failures   []failure
 	notes      []string
 	exhaustive bool
+	mu         sync.Mutex // suites that run cases on several goroutines
 }
 
 func newSuiteOut(dir, name string) *suiteOut {
@@ -88,6 +90,8 @@ func newSuiteOut(dir, name string) *suiteOut {
 // emit records one case line and the implementation's canonical result line.
 // nontrivial says whether the case counts as non-trivial (rule is suite-specific).
 func (o *suiteOut) emit(caseLine, implLine string, nontrivial bool) int {
+	o.mu.Lock()
+	defer o.mu.Unlock()
 	if strings.ContainsAny(caseLine, "\n\r") || strings.ContainsAny(implLine, "\n\r") {
 		panic("harness: newline inside a protocol line")
 	}
@@ -113,9 +117,15 @@ func (o *suiteOut) emit(caseLine, implLine string, nontrivial bool) int {
 	return o.n
 }
 
-func (o *suiteOut) count(key string) { o.dist[key]++ }
+func (o *suiteOut) count(key string) {
+	o.mu.Lock()
+	o.dist[key]++
+	o.mu.Unlock()
+}
 
 func (o *suiteOut) fail(prop, oracle, caseLine, expected, observed string) {
+	o.mu.Lock()
+	defer o.mu.Unlock()
 	if len(o.failures) < 200 {
 		o.failures = append(o.failures, failure{prop, oracle, caseLine, o.n, expected, observed})
 	}
